@@ -49,7 +49,7 @@ func TestC18(t *testing.T) {
 	out := hx.NewOut()
 	defer out.Close("four tolerated-failure boundaries on the real keepers (attestation handler, inbound bridge call, passed proposal, IBC receive) x failure points (token exists / FX decimals / missing oracle set; revert, store+revert, invalid opcode, out of gas, disabled pair first/middle/last, unknown token; failing message first/middle/last; foreign voucher, bech32 receiver, reverting memo call, store+revert memo call). monitor: key-level multistore dump after the failure == dump of the designated outcome applied on a fresh branch of the same pre-state. non-trivial = distinct (boundary, failure point, configuration)")
 
-	nseq := hx.N(8, 40)
+	nseq := hx.N(12, 60)
 	for i := 0; i < nseq; i++ {
 		s := hx.NewSuite(t, 1+rng.Intn(3))
 		e := &env{s: s, rng: rng, chain: "eth", k: s.App.EthKeeper, keys: s.App.GetKVStoreKey()}
